@@ -95,6 +95,27 @@ func c09SpecialSeq(g *gen.G, which int) *c09Seq {
 				"genList(‹1:args›, «p», ‹2:args›, «q», ‹3:args›, «p»)", "found(«p», «q»)")
 		}
 		return &c09Seq{changes: []*gen.Change{c1, c2}, roles: []string{"generates-list", "searches-it"}, base: c1}
+	case 3:
+		// an earlier change tries its metavariable on a node N (wrapE(N, 5) is a near-miss of wrapE(e, 0)) and rewrites
+		// code strictly inside N; a later change captures N: it must see N as the earlier change left it
+		e := []gen.MetaVar{{Name: "e", Kind: "expression"}}
+		em := []gen.MetaVar{{Name: "e", Kind: "expression"}, {Name: "m", Kind: "expression"}}
+		c1 := mk("expr", "c09-probes-and-rewrites-inside", e, nil, "wrapE(«e», 0)", "«e»")
+		c2 := mk("expr", "c09-captures-probed-node", em, nil, "wrapE(«e», «m»)", "wrapF(«e», 9, «m»)")
+		if g.R.Intn(2) == 0 {
+			c1 = mk("expr", "c09-probes-and-rewrites-inside", e, nil, "wrapE(«e», 0)", "unwrapped(«e»)")
+		}
+		return &c09Seq{changes: []*gen.Change{c1, c2}, roles: []string{"probes-and-rewrites-inside", "captures-probed-node"}, base: c1,
+			extra: []string{"wrapE(note(wrapE(%s, 0)), 5)", "wrapE(wrapE(%s, 0).Field, 6)", "wrapE(func() int { return wrapE(%s, 0) }, 7)"}}
+	case 4:
+		// an earlier change generates nested code of one shape (all of it at the position of the replaced site); a later
+		// change matches both levels and reproduces the inner one through an elision
+		c1 := mk("expr", "c09-generates-nested", x, nil, "oldJoin(«x»)", "join(a, join(«x», c))")
+		c2 := mk("expr", "c09-rewrites-both-levels", []gen.MetaVar{{Name: "p", Kind: "expression"}}, nil, "join(«p», ‹1:args›)", "joinCtx(ctx, «p», ‹1:args›)")
+		if g.R.Intn(2) == 0 {
+			c1 = mk("expr", "c09-generates-nested", x, nil, "oldJoin(«x»)", "join(a, b, join(«x», join(c, d)))")
+		}
+		return &c09Seq{changes: []*gen.Change{c1, c2}, roles: []string{"generates-nested", "rewrites-both-levels"}, base: c1}
 	default:
 		// a later change is guarded by an import that only an earlier change adds (and by a package clause that only
 		// an earlier change makes true)
@@ -304,6 +325,12 @@ func runC09(ctx *core.Ctx, idx int) *core.Result {
 		seq = c09SpecialSeq(g, 1)
 	case 8:
 		seq = c09SpecialSeq(g, 2)
+	}
+	switch idx % 24 {
+	case 2:
+		seq = c09SpecialSeq(g, 3)
+	case 14:
+		seq = c09SpecialSeq(g, 4)
 	}
 	// files
 	nf := 3
